@@ -206,13 +206,27 @@ PLANS["C19"] = {
 }
 PLANS["C11"] = {
     "props": ["C11"], "ops": ["feed"],
+    "mc": [{"module": "MCUtf8", "model": "utf8", "kind": "bytes", "constants": {"MaxLen": {"quick": 3, "thorough": 4}},
+            "invariants": ["StreamingEqualsWhole", "NothingLost", "Emit"], "ports": ports({"bytes": 1}, {"bytes": 1})},
+           {"module": "MCUtf8", "model": "utf8-deep", "kind": "bytes", "constants": {"MaxLen": {"quick": 4, "thorough": 5}}, "emit": False,
+            "invariants": ["StreamingEqualsWhole", "NothingLost"], "ports": ports({"bytes": 1}, {"bytes": 1}), "workers": 12}],
     "gen": [gen("recsoup", 400, 12000, port="bytes", chars=60), gen("soup", 200, 6000), gen("captured", 7, 70, maxbytes=1200)],
     "rule": "byte strings with well-formed 1-4 byte forms, overlongs, surrogates, > U+10FFFF, stray continuation bytes, truncated sequences, "
             "BOM, random chunking and mode switches between chunks; the text delivered to the listener per feed() call is compared by TLC "
             "with the specification's streaming decoder (pending tail carried by TLC)",
 }
+def mcstream(maxtok, utf8, p, **kw):
+    d = {"module": "MCStream", "model": "stream-%s" % ("u" if utf8 else "e"), "kind": "stream",
+         "constants": {"MaxTok": maxtok, "Utf8Mode": "TRUE" if utf8 else "FALSE", "Cols": 3, "Lines": 2},
+         "invariants": ["ChunkIndependent", "Emit"], "ports": p}
+    d.update(kw)
+    return d
+
 PLANS["C02"] = {
     "props": ["C02"], "ops": ["feed"],
+    "mc": [mcstream({"quick": 2, "thorough": 3}, True, ports({"bytes": 1, "chars": 1}, {"bytes": 1, "chars": 2})),
+           mcstream({"quick": 2, "thorough": 3}, False, ports({"bytes": 2, "chars": 3}, {"bytes": 2, "chars": 4})),
+           mcstream({"quick": 3, "thorough": 4}, True, ports({"bytes": 1}, {"bytes": 1}), emit=False, tiers=("thorough",), workers=12)],
     "gen": [gen("chunkedsoup", 120, 4000, bytes=60), gen("chunkedsoup", 40, 1200, bytes=60, utf8=0), gen("chunkedsoup", 40, 1200, bytes=25, geom="tiny"),
             gen("chunked", 40, 1200, tokens=25), gen("chunked", 20, 600, tokens=25, utf8=0), gen("chunked", 20, 600, tokens=12, geom="tiny"),
             gen("captured", 7, 70, maxbytes=1500)],
